@@ -1,7 +1,8 @@
 """C06 — lazy sequences realize each element once, only on demand, safely shared.
 
 Part 1 (engine B, single thread): every consumption history up to a length over sequences built by lazy-seq
-       chains, map, filter, concat, iterate, take/drop and seqs over Python iterators, on instrumented sources.
+       chains, map, filter, concat, iterate, take/drop and seqs over Python iterators, on instrumented sources;
+       the same with a producer that throws (once or always) at every source index.
 Part 2 (engine A + guarded hook H1): every schedule up to a preemption bound of 2-3 consumer threads on one shared
        lazy seq whose producers are pure / yield / throw once / touch their own sequence.
 Part 3 (free-running, watchdog): the production wait path (cell mutex x GIL) is driven with forced thread orders in a
@@ -23,8 +24,8 @@ from vlib.evidence import Result
 PROPERTY = "C06"
 LEVEL = "model_checking"
 BOUNDS = {
-    "quick": "part 1: all histories of length <=3 over 9 operations from every handle, 7 builders x source lengths 0..3 (+ infinite); part 2: 8 scenarios, preemption bound 3 (2 for 3 threads); part 3: 40 forced-order scenarios",
-    "thorough": "part 1: length <=5; part 2: preemption bound 4 (3 for 3 threads); part 3: 120 scenarios",
+    "quick": "part 1: all histories of length <=3 over 9 operations from every handle, 7 builders x source lengths 0..3 (+ infinite), and 9 builders x lengths 2..3 x a producer throwing (once | always) at every source index; part 2: 8 scenarios, preemption bound 3 (2 for 3 threads); part 3: 40 forced-order scenarios",
+    "thorough": "part 1: length <=5 (<=4 with throwing producers); part 2: preemption bound 4 (3 for 3 threads); part 3: 120 scenarios",
 }
 RULE = (
     "part 1: breadth-first over histories of (handle, operation) on real lazy seqs with instrumented producers; part 2: every schedule within the bound on real threads "
